@@ -56,50 +56,16 @@ func loopOverParam(fn *ssa.Function, name string) *ssa.BasicBlock {
 	return nil
 }
 
+// c09R1: decided from traces of executeDirectives (E10, execTraces); the loop-nest formulation is no longer registered.
 func c09R1(h H) {
 	r := h.r
-	r.Rule("R1", "execution loop nest: in executeDirectives the call of the directive's setup function lies in the loop over the server blocks, which lies inside the loop over the `directives` parameter; the parsing callbacks are invoked in the outer loop only after the inner loop is exhausted; ValidateAndExecuteDirectives passes the server type's Directives() list", 4)
-	fn := h.fn("R1", "", "executeDirectives")
-	if fn == nil {
-		return
+	r.Rule("R1", "execution order as traces (E10): executeDirectives, evaluated for the directive list d1, d2, d3 and two server blocks that use d3, d1 and d2, d1 (in that file order), with the directives' setup functions and the parsing callbacks as oracles, each failing in turn, validating and not: setup runs directive by directive in list order, within a directive block by block and key by key, only where the block uses the directive; a directive's parsing callbacks run after its last block; the first failure is returned and nothing follows it; ValidateAndExecuteDirectives passes the server type's Directives() list", 2)
+	t := execTraces(h)
+	var pos token.Pos
+	if fn := h.p.Func("", "executeDirectives"); fn != nil {
+		pos = fn.Pos()
 	}
-	outer := loopOverParam(fn, "directives")
-	inner := loopOverParam(fn, "sblocks")
-	if outer == nil || inner == nil {
-		r.Unresolve("R1", "executeDirectives: loops over `directives` / `sblocks` not found")
-		return
-	}
-	lo, li := naturalLoop(outer), naturalLoop(inner)
-	nested := true
-	for b := range li {
-		if !lo[b] {
-			nested = false
-		}
-	}
-	r.Check(nested && len(li) < len(lo), "R1", "casket.executeDirectives/loop-nest", inner.Instrs[0].Pos(), "the loop over server blocks is nested inside the loop over the directive list (a directive is executed for all blocks before the next directive)")
-	// setup call: dynamic call of the value returned by DirectiveAction
-	n := 0
-	allInstrs(fn, func(in ssa.Instruction) {
-		c := callOf(in)
-		if c == nil || c.IsInvoke() || c.StaticCallee() != nil {
-			return
-		}
-		if derives(c.Value, func(v ssa.Value) bool { return isResultOf(v, 0, modPath+".DirectiveAction") }, flowOpts{}) {
-			n++
-			r.Check(li[in.Block()], "R1", "casket.executeDirectives/setup-in-inner-loop", in.Pos(), "setup functions run per server block inside the per-directive iteration")
-			// never guarded by justValidate
-			r.Check(!guardedByJustValidate(fn, in), "R1", "casket.executeDirectives/setup-not-guarded-by-justValidate", in.Pos(), "validation runs exactly the setup calls a real start runs")
-		}
-		// parsing callbacks: dynamic call of a value from the parsingCallbacks global
-		if derives(c.Value, func(v ssa.Value) bool { return isGlobalNamed(v, "parsingCallbacks") }, flowOpts{}) {
-			n++
-			ok := lo[in.Block()] && !li[in.Block()] && onlyVia(fn, in, map[edge]bool{{inner, 1}: true})
-			r.Check(ok, "R1", "casket.executeDirectives/callbacks-after-inner-loop", in.Pos(), "parsing callbacks of a directive run after that directive was executed for every server block")
-		}
-	})
-	if n < 2 {
-		r.Unresolve("R1", "executeDirectives: setup call or parsing-callback call not recognised")
-	}
+	r.Check(t.order == "" && t.other == "", "R1", "casket.executeDirectives/order-trace", pos, "directives take effect in the order of the fixed list, whatever the order of their lines in the file", sprintf("%d runs evaluated", t.n), t.order, t.other)
 	if v := h.fn("R1", "", "ValidateAndExecuteDirectives"); v != nil {
 		for _, c := range callsTo(v, "casket.executeDirectives") {
 			arg := callOf(c).Args[2]
